@@ -418,7 +418,22 @@ def _run_check(prop, tier, seed, replay=None):
     except Exception as e:
         traceback.print_exc()
         ctx.log("search raised", e)
-        srch = {"evaluations": 0, "violations": [], "summary": f"search error {type(e).__name__}: {e}", "error": True}
+        tb = traceback.extract_tb(e.__traceback__)
+        inner = tb[-1] if tb else None
+        src_root = os.path.realpath(os.path.join(REPO, "src")) + os.sep
+        if inner is not None and os.path.realpath(inner.filename).startswith(src_root) \
+                and isinstance(e, (TypeError, AttributeError, IndexError, KeyError, NameError, UnboundLocalError, ZeroDivisionError)):
+            # the code under test itself failed with a programming error on an input the harness uses on every run (on the unchanged
+            # tree this search runs to the end): that is a failing input, not a machinery error.  ValueError / LinAlgError etc. are
+            # gstools' own way of rejecting input and stay machinery errors (exit 2) when a harness does not expect them.
+            rel = os.path.realpath(inner.filename)[len(src_root):]
+            srch = {"evaluations": 0, "summary": f"search stopped by {type(e).__name__} raised inside {rel}",
+                    "violations": [{"key": f"exception-in-gstools:{type(e).__name__}:{rel}:{inner.name}",
+                                    "what": f"{type(e).__name__}: {e} — raised inside {rel}:{inner.lineno} ({inner.name}) while the search of this "
+                                            "property was calling the public API with inputs that are accepted on the unchanged tree",
+                                    "case": {"traceback": [f"{f.filename}:{f.lineno} {f.name}" for f in tb[-8:]]}}]}
+        else:
+            srch = {"evaluations": 0, "violations": [], "summary": f"search error {type(e).__name__}: {e}", "error": True}
     violations += srch.get("violations", [])
     ctx.log(f"search: {srch.get('evaluations', 0)} evaluations, {len(violations)} violations")
     # 6. verdict
